@@ -426,6 +426,8 @@ def run_C11(ctx, R):
     _per_config(ctx, R, _only_functions(_own_cjson, {'cJSON_Duplicate', 'cJSON_Duplicate_rec'}, 'OWN2', 4))
     from .rules import shape as _shape
     _per_config(ctx, R, _shape.shp4)
+    from .rules import parse as _parse11
+    _per_config(ctx, R, _parse11.tab1_bound)
 
 
 def run_C12(ctx, R):
@@ -512,6 +514,7 @@ def run_C02(ctx, R):
     _per_config(ctx, R, _inl(parse.tab23))
     _per_config(ctx, R, _only_functions(lst.lst1, {'parse_array', 'parse_object'}, 'LST1', 2))
     _per_config(ctx, R, parse.tab1_depth_balance)
+    _per_config(ctx, R, _inl(parse.tab1_bound))
     from .rules import parse as _parse
     _per_config(ctx, R, _parse.num2)
     _per_config(ctx, R, _parse.num3)
